@@ -91,6 +91,8 @@ func main() {
 			return true
 		})
 		const batch = 48
+		// the canonical minimal roll-over history is executed first by every worker (deterministic minimal replay)
+		runBatch(rep, f, []*Case{minimalRollCase()})
 		for i := 0; i < len(mine); i += batch {
 			if f.Expired() {
 				rep.Cap(fmt.Sprintf("deadline at roll case %d of %d (this shard)", i, len(mine)))
@@ -125,6 +127,8 @@ func main() {
 	rep.Write()
 }
 
+var sampled = map[string]bool{}
+
 // account merges the result of one case into the report.
 func account(rep *vevid.Report, c *Case, r result) {
 	if r.Fatal != "" {
@@ -139,8 +143,8 @@ func account(rep *vevid.Report, c *Case, r result) {
 	if r.OutputFiles >= 2 {
 		rep.Count("cases_output_split_over_several_files", 1)
 	}
-	if int64(r.OutputFiles) > rep.Counters["max_output_files"] {
-		rep.Counters["max_output_files"] = int64(r.OutputFiles)
+	if m, _ := rep.Extra["max_output_files_of_one_compaction"].(int); r.OutputFiles > m {
+		rep.Extra["max_output_files_of_one_compaction"] = r.OutputFiles
 	}
 	if r.Nontrivial {
 		rep.DistinctNontrivial++
@@ -149,8 +153,8 @@ func account(rep *vevid.Report, c *Case, r result) {
 	for _, v := range r.Violations {
 		rep.Violate(v)
 	}
-	if r.Nontrivial && len(c.Steps) >= 3 && rep.Counters["sampled_"+c.Family] == 0 {
-		rep.Counters["sampled_"+c.Family] = 1
+	if r.Nontrivial && len(c.Steps) >= 3 && !sampled[c.Family] {
+		sampled[c.Family] = true
 		rep.Sample(*c)
 	}
 }
@@ -175,8 +179,8 @@ type crashNote struct {
 }
 
 var (
-	childCase    atomic.Int64 // index of the case being executed by this child
-	childCrash   string       // file for the crash note
+	childCase     atomic.Int64 // index of the case being executed by this child
+	childCrash    string       // file for the crash note
 	mergePanicked atomic.Bool
 )
 
@@ -368,7 +372,7 @@ func runBatch(rep *vevid.Report, f *vevid.Flags, cases []*Case) {
 		rep.Outcome(c.Family + " process-killed " + site)
 		rep.Violate(vevid.Violation{
 			Clause:   "output-rollover",
-			Scenario: c.Class() + " after=compact",
+			Scenario: "compaction output split over several files (MaxFileSize=1, >=2 metrics)",
 			Site:     site,
 			Detail: fmt.Sprintf("the process was killed while compacting (a goroutine started by lindb panicked): %s\n  history: %s\n%s",
 				head, c.String(), clip(trace, 2500)),
